@@ -46,4 +46,8 @@ def cXor (w : Nat) (a b : Int) : Int := ((pat w a ^^^ pat w b : Nat) : Int)
 /-- `__builtin_clz` on a non-zero `uint32_t` (undefined for 0 in C; 31 − log2 here) -/
 def cClz32 (n : Int) : Int := 31 - (Nat.log2 n.toNat : Int)
 
+/-- a write log of a callee (offsets relative to its pointer argument) seen from the caller, whose argument
+    was `base + off` -/
+def shiftLog (off : Int) (l : List (Int × Int)) : List (Int × Int) := l.map (fun e => (off + e.1, e.2))
+
 end Draco.CInt
